@@ -35,6 +35,7 @@ import (
 	"go/types"
 	"os"
 	"path/filepath"
+	"regexp"
 	"sort"
 	"strings"
 )
@@ -184,7 +185,9 @@ type FieldSpec struct {
 type StructSpec struct {
 	Pkg    string
 	Go     string
-	Lean   string
+	Lean   string // name of the Lean structure
+	Params string // its parameters, e.g. "(γ : Type)" ("" = none)
+	LeanT  string // the type expression used for values, e.g. "Ctx γ" ("" = Lean)
 	Fields []FieldSpec
 	Extra  []string // extra Lean fields "name : Type := default"
 }
@@ -201,6 +204,9 @@ type Ext struct {
 	Ts     []T
 	// Effect: Lean term for the new receiver ("" = none)
 	Effect string
+	// Stmts: Lean do-statements emitted for the call before its value is used (%t = a fresh name, shared by
+	// Stmts, Value and Values of this call)
+	Stmts []string
 	// MayPanic: Value is of type Except Panic _
 	MayPanic bool
 	// Ignore: the statement is dropped (locks, debug output); recorded in the output as a comment
@@ -215,6 +221,11 @@ type FnSpec struct {
 	Extra  []string // extra Lean parameters "(name : Type)" appended after the Go parameters
 	Exts   []Ext
 	NoRecv bool // the receiver is not used by the translation (omit it)
+	// Prologue: Lean do-statements at the start of the body; RetExtra/RetExtraT: extra values (Lean terms and
+	// types) returned in front of the Go results (e.g. the threaded abstract state of modelled callees)
+	Prologue  []string
+	RetExtra  []string
+	RetExtraT []string
 }
 
 // ---------------------------------------------------------------------------------------------------
@@ -248,6 +259,21 @@ type tr struct {
 	named    []string // named results
 	locals   []map[string]string
 	declared map[string]int
+	ltypes   map[string]string // lean local name -> Lean type ("" = unknown)
+	order    []string          // lean names of mutable locals in declaration order
+	hasLoop  bool
+	aux      []string // auxiliary definitions (loops), emitted before the function
+	nLoops   int
+	inRange  int
+	binders  string   // the binders of the function (for auxiliary definitions)
+	bnames   []string // their names
+	loop     *loopCtx
+}
+
+type loopCtx struct {
+	name string
+	vars []string
+	post ast.Stmt
 }
 
 func (t *tr) fail(n ast.Node, format string, a ...any) {
@@ -299,6 +325,107 @@ func (t *tr) declare(name string) string {
 	return lean
 }
 
+// declareT: a mutable local with a known Lean type (may be carried through loops)
+func (t *tr) declareT(name, ty string) string {
+	l := t.declare(name)
+	t.ltypes[l] = ty
+	t.order = append(t.order, l)
+	return l
+}
+
+// visibleMuts: the mutable locals in scope, in declaration order
+func (t *tr) visibleMuts() []string {
+	vis := map[string]bool{}
+	for _, m := range t.locals {
+		for _, l := range m {
+			vis[l] = true
+		}
+	}
+	var res []string
+	for _, l := range t.order {
+		if vis[l] {
+			res = append(res, l)
+		}
+	}
+	return res
+}
+
+func tupleOf(parts []string) string {
+	if len(parts) == 0 {
+		return "()"
+	}
+	if len(parts) == 1 {
+		return parts[0]
+	}
+	return "(" + strings.Join(parts, ", ") + ")"
+}
+
+func (t *tr) forStmt(x *ast.ForStmt) {
+	if !t.hasLoop {
+		t.fail(x, "loop in a function that was not classified as looping")
+	}
+	if t.loop != nil {
+		t.fail(x, "nested loop")
+	}
+	t.push()
+	if x.Init != nil {
+		t.stmt(x.Init)
+	}
+	vars := t.visibleMuts()
+	var tys []string
+	for _, v := range vars {
+		ty := t.ltypes[v]
+		if ty == "" {
+			t.fail(x, "loop with a live variable %s of unknown type", v)
+		}
+		tys = append(tys, ty)
+	}
+	t.nLoops++
+	name := fmt.Sprintf("%s.loop%d", t.spec.Lean, t.nLoops)
+	tupT := "Unit"
+	if len(tys) > 0 {
+		tupT = strings.Join(tys, " × ")
+	}
+	// the auxiliary definition
+	saveLines, saveInd := t.lines, t.ind
+	t.lines, t.ind = nil, 2
+	t.loop = &loopCtx{name: name, vars: vars, post: x.Post}
+	for i, v := range vars {
+		t.emit("let mut %s := st%s", v, projection(i, len(vars)))
+	}
+	cond := "true"
+	if x.Cond != nil {
+		cond, _ = t.expr(x.Cond)
+	}
+	t.emit("if %s then", cond)
+	t.ind++
+	t.push()
+	for _, st := range x.Body.List {
+		t.stmt(st)
+	}
+	t.pop()
+	if x.Post != nil {
+		t.stmt(x.Post)
+	}
+	t.emit("%s %s fuel %s", name, strings.Join(t.bnames, " "), tupleOf(vars))
+	t.ind--
+	t.emit("else")
+	t.emit("  return some %s", tupleOf(vars))
+	body := t.lines
+	t.loop = nil
+	t.lines, t.ind = saveLines, saveInd
+	aux := fmt.Sprintf("/-- loop %d of `%s`: one unit of fuel per iteration, `none` = out of fuel -/\ndef %s %s : Nat → %s → Except Panic (Option (%s))\n  | 0, _ => pure none\n  | fuel + 1, st => do\n%s\n",
+		t.nLoops, t.spec.Lean, name, t.binders, tupT, tupT, strings.Join(body, "\n"))
+	t.aux = append(t.aux, aux)
+	// the call
+	r := t.fresh()
+	t.emit("let some %s ← %s %s fuel %s | return none", r, name, strings.Join(t.bnames, " "), tupleOf(vars))
+	for i, v := range vars {
+		t.emit("%s := %s%s", v, r, projection(i, len(vars)))
+	}
+	t.pop()
+}
+
 func (t *tr) typeOf(e ast.Expr) types.Type {
 	if tv, ok := t.p.info.Types[e]; ok {
 		return tv.Type
@@ -347,7 +474,7 @@ func (g *gen) goT(ty types.Type) T {
 		name := u.Obj().Name()
 		if u.Obj().Pkg() != nil {
 			if ss := g.structByGo[u.Obj().Pkg().Name()+"."+name]; ss != nil {
-				return T{"struct", ss.Lean}
+				return T{"struct", ss.typeExpr()}
 			}
 		}
 		if o, ok := g.opaque[types.TypeString(ty, func(p *types.Package) string { return p.Name() })]; ok {
@@ -543,8 +670,15 @@ func (t *tr) call(c *ast.CallExpr, stmt bool) ([]string, []T) {
 		}
 		var vals []string
 		var ts []T
+		tn := ""
+		if len(ext.Stmts) > 0 {
+			tn = t.fresh()
+			for _, st := range ext.Stmts {
+				t.emit("%s", strings.ReplaceAll(subst(st, recv, args), "%t", tn))
+			}
+		}
 		if ext.Value != "" {
-			v := subst(ext.Value, recv, args)
+			v := strings.ReplaceAll(subst(ext.Value, recv, args), "%t", tn)
 			if ext.MayPanic {
 				if !t.mayPanic {
 					t.fail(c, "panicking external in a non-panicking function")
@@ -562,7 +696,7 @@ func (t *tr) call(c *ast.CallExpr, stmt bool) ([]string, []T) {
 		if len(ext.Values) > 0 {
 			for i, v := range ext.Values {
 				n := t.fresh()
-				t.emit("let %s := %s", n, subst(v, recv, args))
+				t.emit("let %s := %s", n, strings.ReplaceAll(subst(v, recv, args), "%t", tn))
 				vals = append(vals, n)
 				ts = append(ts, ext.Ts[i])
 			}
@@ -982,6 +1116,7 @@ func allComments(ls []string) bool {
 
 func (t *tr) retValue(vals []string) string {
 	var parts []string
+	parts = append(parts, t.spec.RetExtra...)
 	if t.mutates {
 		r, _ := t.lookup(t.recvName)
 		parts = append(parts, r)
@@ -1035,12 +1170,15 @@ func (t *tr) stmt(s ast.Stmt) {
 				if i < len(vs.Values) {
 					val, _ = t.expr(vs.Values[i])
 				}
-				t.emit("let mut %s : %s := %s", t.declare(n.Name), ty.Lean, val)
+				t.emit("let mut %s : %s := %s", t.declareT(n.Name, ty.Lean), ty.Lean, val)
 			}
 		}
 	case *ast.AssignStmt:
 		t.assign(x)
 	case *ast.ReturnStmt:
+		if t.loop != nil {
+			t.fail(x, "return inside a loop")
+		}
 		var vals []string
 		if len(x.Results) == 0 {
 			for _, n := range t.named {
@@ -1067,7 +1205,11 @@ func (t *tr) stmt(s ast.Stmt) {
 				vals = append(vals, v)
 			}
 		}
-		t.emit("return %s", t.retValue(vals))
+		if t.hasLoop {
+			t.emit("return some %s", t.retValue(vals))
+		} else {
+			t.emit("return %s", t.retValue(vals))
+		}
 	case *ast.BlockStmt:
 		t.push()
 		t.block(x.List)
@@ -1106,9 +1248,24 @@ func (t *tr) stmt(s ast.Stmt) {
 		t.switchStmt(x)
 	case *ast.RangeStmt:
 		t.rangeStmt(x)
+	case *ast.ForStmt:
+		t.forStmt(x)
 	case *ast.BranchStmt:
 		if x.Label != nil {
 			t.fail(x, "labelled branch")
+		}
+		if t.loop != nil && t.inRange == 0 {
+			switch x.Tok {
+			case token.CONTINUE:
+				if t.loop.post != nil {
+					t.stmt(t.loop.post)
+				}
+				t.emit("return ← %s %s fuel %s", t.loop.name, strings.Join(t.bnames, " "), tupleOf(t.loop.vars))
+				return
+			case token.BREAK:
+				t.emit("return some %s", tupleOf(t.loop.vars))
+				return
+			}
 		}
 		switch x.Tok {
 		case token.CONTINUE:
@@ -1222,7 +1379,9 @@ func (t *tr) rangeStmt(x *ast.RangeStmt) {
 	if v != "_" {
 		t.emit("let mut %s := %s_it", v, v)
 	}
+	t.inRange++
 	t.block(x.Body.List)
+	t.inRange--
 	t.ind--
 	t.pop()
 }
@@ -1302,9 +1461,9 @@ func (t *tr) assign(x *ast.AssignStmt) {
 					ty = g
 				}
 				if ty.Kind == "bad" || ty.Kind == "nil" || ty.Lean == "?" {
-					t.emit("let mut %s := %s", t.declare(id.Name), vals[i])
+					t.emit("let mut %s := %s", t.declareT(id.Name, ""), vals[i])
 				} else {
-					t.emit("let mut %s : %s := %s", t.declare(id.Name), ty.Lean, vals[i])
+					t.emit("let mut %s : %s := %s", t.declareT(id.Name, ty.Lean), ty.Lean, vals[i])
 				}
 				continue
 			}
@@ -1411,9 +1570,16 @@ type gen struct {
 	report     []map[string]any
 }
 
+func (ss *StructSpec) typeExpr() string {
+	if ss.LeanT != "" {
+		return ss.LeanT
+	}
+	return ss.Lean
+}
+
 func (g *gen) field(leanStruct, goField string) *FieldSpec {
 	for i := range g.structs {
-		if g.structs[i].Lean == leanStruct {
+		if g.structs[i].typeExpr() == leanStruct {
 			for j := range g.structs[i].Fields {
 				if g.structs[i].Fields[j].Go == goField {
 					return &g.structs[i].Fields[j]
@@ -1487,7 +1653,7 @@ func (g *gen) emitStructs() {
 		ss := &g.structs[i]
 		p := g.pkg(ss.Pkg)
 		st := p.findStruct(ss.Go)
-		fmt.Fprintf(&g.out, "/-- Go `%s` (modelled fields only) -/\nstructure %s where\n", ss.Go, ss.Lean)
+		fmt.Fprintf(&g.out, "/-- Go `%s` (modelled fields only) -/\nstructure %s %s where\n", ss.Go, ss.Lean, ss.Params)
 		for _, f := range ss.Fields {
 			got := "<missing>"
 			if st != nil {
@@ -1511,6 +1677,9 @@ func (g *gen) emitStructs() {
 			fmt.Fprintf(&g.out, "  %s\n", e)
 		}
 		fmt.Fprintf(&g.out, "  deriving DecidableEq, Repr, Inhabited\n\n")
+		if ss.Params != "" {
+			fmt.Fprintf(&g.out, "variable {%s}\n\n", strings.Trim(ss.Params, "()"))
+		}
 	}
 }
 
@@ -1527,11 +1696,17 @@ func (g *gen) translate(fi *fnInfo) {
 		g.report = append(g.report, map[string]any{"func": name, "problem": "not found"})
 		return
 	}
-	t := &tr{g: g, p: p, spec: spec, fd: fd, declared: map[string]int{}}
+	t := &tr{g: g, p: p, spec: spec, fd: fd, declared: map[string]int{}, ltypes: map[string]string{}}
+	ast.Inspect(fd.Body, func(n ast.Node) bool {
+		if _, ok := n.(*ast.ForStmt); ok {
+			t.hasLoop = true
+		}
+		return true
+	})
 	if fd.Recv != nil && len(fd.Recv.List[0].Names) == 1 {
 		t.recvName = fd.Recv.List[0].Names[0].Name
 	}
-	t.mayPanic = mayPanicBody(p, g, spec, fd, t.recvName)
+	t.mayPanic = mayPanicBody(p, g, spec, fd, t.recvName) || t.hasLoop
 	t.mutates = !spec.NoRecv && mutatesBody(p, g, spec, fd, t.recvName)
 	fi.mayPanic, fi.mutates = t.mayPanic, t.mutates
 	src := p.text(fd)
@@ -1563,9 +1738,11 @@ func (g *gen) translate(fi *fnInfo) {
 		}
 		assigned := assignedIdents(fd.Body)
 		var muts []string
+		mutT := map[string]string{}
 		if t.mutates {
 			l, _ := t.lookup(t.recvName)
 			muts = append(muts, l)
+			mutT[l] = t.recvT.Lean
 		}
 		if fd.Type.Params != nil {
 			for _, f := range fd.Type.Params.List {
@@ -1582,6 +1759,7 @@ func (g *gen) translate(fi *fnInfo) {
 					fi.params = append(fi.params, ty)
 					if assigned[n.Name] {
 						muts = append(muts, l)
+						mutT[l] = ty.Lean
 					}
 				}
 			}
@@ -1607,6 +1785,7 @@ func (g *gen) translate(fi *fnInfo) {
 		}
 		fi.results = t.results
 		var rts []string
+		rts = append(rts, spec.RetExtraT...)
 		if t.mutates {
 			rts = append(rts, t.recvT.Lean)
 		}
@@ -1618,17 +1797,32 @@ func (g *gen) translate(fi *fnInfo) {
 			rt = strings.Join(rts, " × ")
 		}
 		monad := "Id.run do"
-		if t.mayPanic {
+		if t.hasLoop {
+			rt = "Except Panic (Option (" + rt + "))"
+			monad = "do"
+		} else if t.mayPanic {
 			rt = "Except Panic (" + rt + ")"
 			monad = "do"
+		}
+		t.binders = strings.Join(params, " ")
+		for _, m := range binderRe.FindAllStringSubmatch(t.binders, -1) {
+			t.bnames = append(t.bnames, strings.Fields(m[1])...)
+		}
+		if t.hasLoop {
+			params = append(params, "(fuel : Nat)")
 		}
 		header = fmt.Sprintf("def %s %s : %s := %s", spec.Lean, strings.Join(params, " "), rt, monad)
 		t.ind = 1
 		for _, m := range muts {
 			t.emit("let mut %s := %s", m, m)
+			t.ltypes[m] = mutT[m]
+			t.order = append(t.order, m)
+		}
+		for _, l := range spec.Prologue {
+			t.emit("%s", l)
 		}
 		for i, n := range t.named {
-			t.emit("let mut %s : %s := %s", t.declare(n), t.results[i].Lean, zeroOf(t.results[i]))
+			t.emit("let mut %s : %s := %s", t.declareT(n, t.results[i].Lean), t.results[i].Lean, zeroOf(t.results[i]))
 		}
 		for _, s := range fd.Body.List {
 			t.stmt(s)
@@ -1643,13 +1837,22 @@ func (g *gen) translate(fi *fnInfo) {
 			if len(t.results) > 0 && len(t.named) == 0 {
 				t.fail(fd, "missing return")
 			}
-			t.emit("return %s", t.retValue(vals))
+			if t.hasLoop {
+				t.emit("return some %s", t.retValue(vals))
+			} else {
+				t.emit("return %s", t.retValue(vals))
+			}
 		}
 		fi.ok = true
+		for _, a := range t.aux {
+			fmt.Fprintf(&g.out, "%s\n", a)
+		}
 		fmt.Fprintf(&g.out, "/--\n```go\n%s\n```\n-/\n%s\n%s\n\n", escDoc(src), header, strings.Join(t.lines, "\n"))
 		g.report = append(g.report, map[string]any{"func": name, "lean": "Rux.Gen." + spec.Lean, "mayPanic": t.mayPanic, "mutatesReceiver": t.mutates, "lines": len(t.lines)})
 	}()
 }
+
+var binderRe = regexp.MustCompile(`\(([^:(){}]+):`)
 
 func zeroOf(t T) string {
 	if strings.HasPrefix(t.Lean, "Option ") {
